@@ -3,7 +3,7 @@
 import os, sys, time, json, random, subprocess, traceback, struct, hashlib, multiprocessing as mp, resource
 from fractions import Fraction
 import z3
-from . import build, ir, smt
+from . import build, ir, smt, proc
 from .vals import *
 from .case import *
 from .sym import Interp, PathEnd, Stats, CondVal
@@ -115,7 +115,7 @@ class Native:
             lines.append(' '.join(toks))
         res = []
         # run one process per request batch; on crash, fall back to one-by-one
-        p = subprocess.run([s.exe], input='\n'.join(lines) + '\n', capture_output=True, text=True, timeout=timeout)
+        p = proc.run([s.exe], input='\n'.join(lines) + '\n', timeout=timeout)
         outs = p.stdout.split('\n')
         if p.returncode != 0 and len(reqs) > 1:
             for rq in reqs: res += s.run_many([rq], timeout)
